@@ -15,7 +15,7 @@ def main(pid):
     os.makedirs(out, exist_ok=True)
     text = f"{pid} {p['title']}. {p['statement']}"
     anchors = ', '.join(p['anchors']['files'])
-    prompt = f'''You are helping test a verification harness for false alarms. Work ONLY inside the git worktree {wt} (a checkout of the Python library husisy/numqi; the package source is under {wt}/python/numqi) and write your outputs to {out}/. Do NOT read or touch /verif or /repo. Never commit anything. There is no network. Use OMP_NUM_THREADS=2 for every python / pytest invocation.
+    prompt = f'''You are helping test a verification harness for false alarms. Work ONLY inside the git worktree {wt} (a checkout of the Python library husisy/numqi; the package source is under {wt}/python/numqi) and write your outputs to {out}/. Do NOT read or touch /verif or /repo. Never commit anything and never use `git stash` (the stash is shared with other worktrees of the same repository that other people are using right now). There is no network. Use OMP_NUM_THREADS=2 for every python / pytest invocation.
 
 A property of the library that must KEEP holding:
 "{text}"
